@@ -7,7 +7,7 @@ META = {
     "driver_id": "Edit",
     "coq_targets": ["Props/C07.vo", "Extract/Extract_Edit.vo"],
     "technique": 'Coq invariant / refinement proofs over the executable edit-machine model + step-by-step differential correspondence of the extracted model with the implementation + direct oracle on the implementation',
-    "level_text": "Proved in Coq about the executable model (Props/C07.v, all closed under the global context): C07_set_pixels, C07_mask_of, C07_pixels (array primitives: a write changes exactly the in-range pixels given and keeps the shape; a mask is exactly the in-range indices carrying the label, strictly increasing; get_pixels returns the node's time frame and exactly its pixels); W_seg (every node labels at least one pixel, only in its own time frame; every non-zero label is a node; 0 is no node) is preserved by each basic action under its documented precondition: C07_W_seg_add_node / _add_node_gen, C07_W_seg_del_node / _del_node_px, C07_W_seg_upd_seg_grow / _shrink / _gen, C07_W_seg_add_edge, C07_W_seg_del_edge, C07_W_seg_upd_attrs, C07_W_seg_upd_track (with C07_pre_write_of_W_seg linking the general mid-stroke forms to W_seg); for the whole paint/erase stroke, for every state and every stroke: C07_paint_exact (a stroke that returns normally leaves the array exactly as painted, same shape) C07_paint_error_restores (a stroke that raises at any point, also after the rollback of a refused forceable action, leaves the previous array bit for bit) and, for states satisfying W_seg in which 'time' is not a regionprops key, C07_paint_undo (Tracks.undo right after a successful stroke succeeds and restores the previous array bit for bit; the example C07_undo_needs_W_seg shows the hypothesis is needed). Every clause has a theorem about the model. C07_run_edge_calls (every state reachable from a well-formed state by any sequence, of any length, of edge-level calls - add / delete edge with and without force, swap, track queries, fresh ids - satisfies the complete invariant WF: dictionaries, forest, track ids, lineage ids, lookups, label/node correspondence, fresh features; induction over the call list); C07_run_node_calls (the same reachability statement with UserAddNode and UserDeleteNode included, accepted or refused, each UserAddNode respecting its documented preconditions - integer time / track id, no caller-supplied lineage id, and with a segmentation a non-zero id and background pixels of its own frame; Proofs/EditWFNodeExample.v shows three accepted calls outside these preconditions that break the invariant); C07_sessions (from a well-formed state with an empty history, EVERY state reached along ANY sequence - of any length - of calls of the WHOLE public interface of the edit machine - edge, swap, node, attribute and stroke edits, undo, redo, queries - accepted or refused, satisfies the complete invariant WF; hypotheses: three configuration facts no call changes, and the documented per-call preconditions of UserAddNode / node calls without segmentation at the moment each call is made; strokes, edge calls, attribute updates, undo and redo have none); C07_paint and C07_run_paint_calls (every accepted stroke yields a well-formed state; every refused stroke too, the rolled-back one included); C07_user_actions_are_generated (the seven composite user actions of the model equal, for all arguments, the code translated on every run from the current user_actions/*.py); C07_sessions_from_construction (the start state need not be assumed well formed: for every valid raw solution - forest, labels and nodes one-to-one, fresh feature table, true oracle partitions - the state constructed by enabling the core features with recomputation is well formed, so every session over the whole interface from it stays well formed). C07_core_is_generated: one level further down, the queries, the node-id counter, Tracks.undo / redo and the seven basic actions with their inverses of the model equal the code translated on every run from solution_tracks.py, tracks.py, _track_annotator.py and actions/*.py (Gen/Core_gen.v; statement in Proofs/CoreTieBundle.v). C07_direct_add_node_refuted: the known finding F-07b as machine-checked refutations (a direct UserAddNode outside its documented preconditions is accepted and breaks the correspondence; three witnesses reproduce it on the implementation and are reported as KNOWN-FINDING). C07_sessions_from_any_construction: the same for a graph that arrives with managed features of its own - the constructor as the code runs it (Model/EditCtor.v construct_any: the id lookups filled by a scan of the supplied ids, every core feature the first node carries activated at face value, every other one computed) yields a well-formed state whenever the detected features are valid on all nodes (supplied_ok), for every combination of supplied and computed features, and every session from it stays well formed (Proofs/EditCtor.v; EditCtorExample.v shows that invalid supplied ids break it); tie: constructor correspondence on every generated raw solution (harness/ctor.py). C07_accessors_are_generated: the array and attribute accessors the other translators take as primitives - Tracks.get_pixels, set_pixels, get_time, get_times, get_node_attr, get_nodes_attr, _set_node_attr, _set_nodes_attr - equal, on stated domains, the code translated on every run from data_model/tracks.py (Gen/Accessors_gen.v, harness/translate_accessors.py, Proofs/AccessorsTie.v; decorators such as lru_cache, overrides in SolutionTracks and a segmentation property are refused); outside the domains Python raises where the model is total (missing node / frame for get_pixels, index outside the frame for set_pixels): whatever get_pixels returns lies inside the domain of set_pixels. C07_no_array_stays_none / C07_no_array_stays_none_switching: tracks without a label array never acquire one - along every session of the whole public interface (edits accepted or refused, undo, redo, queries) and along every session that also switches features on and off with or without recomputation, seg stays None, with no hypothesis on the start state beyond seg = None (Proofs/EditSegNone.v, EditSegNoneToggle.v; non-vacuity example C07_no_array_nonvacuous: a stroke on such tracks is refused). Erase strokes that span several frames (one UserUpdateSegmentation(0, groups) whose groups lie in two or three frames, each removing all or part of its node) are outside the edit machine's single-frame stroke operation and are checked on the implementation alone by multiframe_erase_scenarios: label / node correspondence and get_pixels after the stroke, after undo (array restored bit for bit) and after redo (painted array reproduced).",
+    "level_text": "Proved in Coq about the executable model (Props/C07.v, all closed under the global context): C07_set_pixels, C07_mask_of, C07_pixels (array primitives: a write changes exactly the in-range pixels given and keeps the shape; a mask is exactly the in-range indices carrying the label, strictly increasing; get_pixels returns the node's time frame and exactly its pixels); W_seg (every node labels at least one pixel, only in its own time frame; every non-zero label is a node; 0 is no node) is preserved by each basic action under its documented precondition: C07_W_seg_add_node / _add_node_gen, C07_W_seg_del_node / _del_node_px, C07_W_seg_upd_seg_grow / _shrink / _gen, C07_W_seg_add_edge, C07_W_seg_del_edge, C07_W_seg_upd_attrs, C07_W_seg_upd_track (with C07_pre_write_of_W_seg linking the general mid-stroke forms to W_seg); for the whole paint/erase stroke, for every state and every stroke: C07_paint_exact (a stroke that returns normally leaves the array exactly as painted, same shape) C07_paint_error_restores (a stroke that raises at any point, also after the rollback of a refused forceable action, leaves the previous array bit for bit) and, for states satisfying W_seg in which 'time' is not a regionprops key, C07_paint_undo (Tracks.undo right after a successful stroke succeeds and restores the previous array bit for bit; the example C07_undo_needs_W_seg shows the hypothesis is needed). Every clause has a theorem about the model. C07_run_edge_calls (every state reachable from a well-formed state by any sequence, of any length, of edge-level calls - add / delete edge with and without force, swap, track queries, fresh ids - satisfies the complete invariant WF: dictionaries, forest, track ids, lineage ids, lookups, label/node correspondence, fresh features; induction over the call list); C07_run_node_calls (the same reachability statement with UserAddNode and UserDeleteNode included, accepted or refused, each UserAddNode respecting its documented preconditions - integer time / track id, no caller-supplied lineage id, and with a segmentation a non-zero id and background pixels of its own frame; Proofs/EditWFNodeExample.v shows three accepted calls outside these preconditions that break the invariant); C07_sessions (from a well-formed state with an empty history, EVERY state reached along ANY sequence - of any length - of calls of the WHOLE public interface of the edit machine - edge, swap, node, attribute and stroke edits, undo, redo, queries - accepted or refused, satisfies the complete invariant WF; hypotheses: three configuration facts no call changes, and the documented per-call preconditions of UserAddNode / node calls without segmentation at the moment each call is made; strokes, edge calls, attribute updates, undo and redo have none); C07_paint and C07_run_paint_calls (every accepted stroke yields a well-formed state; every refused stroke too, the rolled-back one included); C07_user_actions_are_generated (the seven composite user actions of the model equal, for all arguments, the code translated on every run from the current user_actions/*.py); C07_sessions_from_construction (the start state need not be assumed well formed: for every valid raw solution - forest, labels and nodes one-to-one, fresh feature table, true oracle partitions - the state constructed by enabling the core features with recomputation is well formed, so every session over the whole interface from it stays well formed). C07_core_is_generated: one level further down, the queries, the node-id counter, Tracks.undo / redo and the seven basic actions with their inverses of the model equal the code translated on every run from solution_tracks.py, tracks.py, _track_annotator.py and actions/*.py (Gen/Core_gen.v; statement in Proofs/CoreTieBundle.v). C07_direct_add_node_refuted: the known finding F-07b as machine-checked refutations (a direct UserAddNode outside its documented preconditions is accepted and breaks the correspondence; three witnesses reproduce it on the implementation and are reported as KNOWN-FINDING). C07_sessions_from_any_construction: the same for a graph that arrives with managed features of its own - the constructor as the code runs it (Model/EditCtor.v construct_any: the id lookups filled by a scan of the supplied ids, every core feature the first node carries activated at face value, every other one computed) yields a well-formed state whenever the detected features are valid on all nodes (supplied_ok), for every combination of supplied and computed features, and every session from it stays well formed (Proofs/EditCtor.v; EditCtorExample.v shows that invalid supplied ids break it); tie: constructor correspondence on every generated raw solution (harness/ctor.py). C07_accessors_are_generated: the array and attribute accessors the other translators take as primitives - Tracks.get_pixels, set_pixels, get_time, get_times, get_node_attr, get_nodes_attr, _set_node_attr, _set_nodes_attr - equal, on stated domains, the code translated on every run from data_model/tracks.py (Gen/Accessors_gen.v, harness/translate_accessors.py, Proofs/AccessorsTie.v; decorators such as lru_cache, overrides in SolutionTracks and a segmentation property are refused); outside the domains Python raises where the model is total (missing node / frame for get_pixels, index outside the frame for set_pixels): whatever get_pixels returns lies inside the domain of set_pixels. C07_no_array_stays_none / C07_no_array_stays_none_switching: tracks without a label array never acquire one - along every session of the whole public interface (edits accepted or refused, undo, redo, queries) and along every session that also switches features on and off with or without recomputation, seg stays None, with no hypothesis on the start state beyond seg = None (Proofs/EditSegNone.v, EditSegNoneToggle.v; non-vacuity example C07_no_array_nonvacuous: a stroke on such tracks is refused). C07_sessions_keep_array_shape / _switching: an array that is there is never dropped and keeps its number of frames and every frame size along every such session, whatever the calls return, rolled-back strokes included (Proofs/EditSegShape.v; C07_ex0_W_seg shows a state with an array). Erase strokes that span several frames (one UserUpdateSegmentation(0, groups) whose groups lie in two or three frames, each removing all or part of its node) are outside the edit machine's single-frame stroke operation and are checked on the implementation alone by multiframe_erase_scenarios: label / node correspondence and get_pixels after the stroke, after undo (array restored bit for bit) and after redo (painted array reproduced).",
     "level_note": 'Trusted: Coq kernel, extraction (ExtrOcamlBasic only), OCaml driver drv_Edit.ml, Python harness and oracles. Modelled, not verified: networkx DiGraph dict semantics, numpy indexing, skimage regionprops (symbolic: value = function of key, mask, spacing), psygnal. The theorems are about the hand-written model coq/Model/Edit.v; the tie to /repo is the step-by-step differential execution of the extracted model against the implementation on every run. Tied to the source in a second way: the history mechanism (action_history.py) and the seven composite user actions (user_actions/*.py) are re-translated on every run by fail-closed translators (harness/translate_history.py, translate_user_actions.py; closed idiom tables; runtime combinators Model/PyRt.v) and proved equal to the hand-written model for all arguments (Proofs/HistoryTie.v, UserActionsTie.v); trusted there: the idiom tables and combinators, and the stated conventions (get_time / successors on a missing node do not raise, StopIteration reported as KeyError, feature keys never None).',
     "design_ref": "DESIGN.md section 9 (C07)",
     "assumptions": ['the caller does not pass a lineage id to UserAddNode (outside its documented domain)', 'track_id and lineage_id features stay enabled during editing sessions', 'labels/ids are positive; times are frame indices within the array'],
